@@ -31,7 +31,7 @@ def plan(tier):
 
 
 def required_counters(tier):
-    return ["aligned_calls_returned", "perturbed_calls", "perturbed_rejected", "index_perturbations", "length_perturbations"]
+    return ["aligned_calls_returned", "perturbed_calls", "perturbed_rejected", "index_perturbations", "length_perturbations", "extension_bool_masks"]
 
 
 def _gb_ops():
@@ -99,6 +99,10 @@ IDX_PERT = ["permuted", "shifted", "duplicated"]
 def perturb(obj, kind, n, rng):
     """misaligned version of one argument."""
     arr = obj.to_numpy() if isinstance(obj, pd.Series) else np.asarray(obj)
+    ext_dtype = obj.dtype if isinstance(obj, pd.Series) and not isinstance(obj.dtype, np.dtype) else None
+    if ext_dtype is not None:
+        bad = perturb(pd.Series(arr.astype(bool), index=obj.index, name=obj.name), kind, n, rng)
+        return None if bad is None else bad.astype(ext_dtype)
     if kind in LEN_PERT:
         m = {"n-1": n - 1, "n-2": n - 2, "n-3": n - 3, "n+1": n + 1, "n+2": n + 2, "n+3": n + 3, "0": 0, "2n": 2 * n}[kind]
         if m < 0:
@@ -123,7 +127,7 @@ def perturb(obj, kind, n, rng):
 
 
 def features(case):
-    return [f"op={case['op']}|keys={'pd' if case['pd_keys'] else 'np'}"]
+    return [f"op={case['op']}|keys={'pd' if case['pd_keys'] else 'np'}|mask={case.get('mask_dtype', 'bool')}"]
 
 
 def nontrivial(case):
@@ -152,6 +156,14 @@ def check(case, ctx):
     tms = (np.cumsum(rng.integers(0, 5, size=n)) + 1_600_000_000).astype("int64").astype("M8[s]").astype("M8[ns]")
     a0 = {"values": W(vals, "v"), "values2": W(vals2, "v2"), "mask": W(rng.random(n) < 0.7) if case["with_mask"] else None,
           "subset_mask": W(rng.random(n) < 0.5), "times": W(tms), "codes": codes.astype("int64"), "ngroups": 3, "keys": keys, "keys2": keys2}
+    if a0["mask"] is not None and not np.asarray(a0["mask"]).any():
+        m0 = np.asarray(a0["mask"]).copy()
+        m0[0] = True  # keep the aligned control call away from the open finding K03 (nothing selected)
+        a0["mask"] = W(m0)
+    mk = case.get("mask_dtype", "bool")
+    if pdk and mk != "bool" and a0["mask"] is not None:
+        # boolean masks also come as pandas nullable / Arrow-backed booleans: the same alignment rules apply
+        a0["mask"] = a0["mask"].astype("boolean" if mk == "boolean" else "bool[pyarrow]")
     op = case["op"]
     table = _gb_ops() if not op.startswith(("nb.", "ema_grouped", "ema_timed_ungrouped", "crosstab")) else _standalone_ops()
     argnames, fn = table[op]
@@ -172,6 +184,8 @@ def check(case, ctx):
         a0["values"] = W(np.cumsum(np.abs(vals)).astype("float64"))
     if op == "nb.group_nearby_members":
         a0["values"] = np.cumsum(np.abs(vals)).astype("float64")
+    if case.get("mask_dtype", "bool") != "bool" and pdk:
+        ctx.count("extension_bool_masks")
     base = lib.call(fn, gb, a0)
     if lib.raised(base):
         return [{"monitor": "c18.aligned_rejected", "sig": f"{op}|{type(base.exc).__name__}", "detail": f"aligned call {op} (keys {'pandas' if pdk else 'numpy'}, n={n}) raised {base!r}"}]
@@ -219,7 +233,7 @@ def run(ctx):
     ops_all = sorted(_gb_ops()) + sorted(_standalone_ops())
     mine = [o for i, o in enumerate(ops_all) if i % ctx.nshards == ctx.shard]
     rng = gen.rng_for(ctx.seed, "C18", ctx.shard, 1 if ctx.mode != "prod" else 0)
-    reps = {"quick": 3, "thorough": 40}[ctx.tier] if ctx.mode == "prod" else 1
+    reps = {"quick": 6, "thorough": 40}[ctx.tier] if ctx.mode == "prod" else 1
     for rep in range(reps):
         for op in mine:
             for pdk in (False, True):
@@ -228,7 +242,8 @@ def run(ctx):
                                                          "rolling_sum", "rolling_mean", "rolling_sum_bg", "ema", "ema_timed", "ema_bg", "mean") or op.startswith(("nb.", "ema_", "crosstab"))):
                     vk = "float"
                 case = {"op": op, "n": int(rng.integers(4, 12)), "pd_keys": pdk, "keykind": gen.pick(rng, ["int", "str"]), "vkind": vk,
-                        "with_mask": True, "seed": int(rng.integers(1 << 30)), "standalone_pd": bool(rng.random() < 0.5), "noshrink": True}
+                        "with_mask": True, "seed": int(rng.integers(1 << 30)), "standalone_pd": bool(rng.random() < 0.5), "noshrink": True,
+                        "mask_dtype": gen.pick(rng, ["bool", "bool", "boolean", "bool[pyarrow]"]) if pdk and not op.startswith(("nb.", "ema_grouped", "crosstab")) else "bool"}
                 ctx.run_case(case, check, features, nontrivial)
 
 
